@@ -21,11 +21,14 @@ CONTENTS = [
                    [P.ts(0, 4, 4), P.ks(0, "D")], dur=192),
     P.notes_to_abs([(0, 50, 6, 30, 90), (0, 52, 48, 120, 40), (0, 55, 150, 156, 30)], [P.ts(0, 4, 4)], dur=192),
     P.notes_to_abs([(0, 72, 0, 24, 100), (0, 74, 24, 48, 100), (0, 76, 96, 108, 100)], [], dur=150),
+    P.notes_to_abs([(0, 65, 3, 30, 90)], []),        # shorter than one bar
 ]
 SECOND = P.notes_to_abs([(0, 40, 0, 24, 64), (0, 43, 100, 124, 64)], [], dur=192)
 OTHER = P.notes_to_abs([(0, 67, 2, 9, 75)], [], dur=12)
 
 IN_PLACE = ["set_channel", "transpose", "scale", "iter_edit_rel", "iter_edit_abs", "bar_transpose"]
+# operations that take the OTHER side as their argument: afterwards the two sides must still be independent
+WITH_OTHER = ["merge_other", "concatenate_other"]
 STRUCTURAL = ["normalise", "pad", "quantise", "quantise_note_lengths", "cutoff", "add_relative_message", "add_absolute_message",
               "merge", "concatenate", "overwrite_relative_messages", "quantise_and_normalise", "transpose_wrap"]
 
@@ -56,7 +59,14 @@ def content(obj):
     return [P.views(s) for s in seqs_of(obj)]
 
 
-def apply_op(obj, op):
+def apply_op(obj, op, other=None):
+    if op in WITH_OTHER:
+        for s, o in zip(seqs_of(obj), seqs_of(other)):
+            if op == "merge_other":
+                s.merge([o])
+            else:
+                s.concatenate([o])
+        return
     if op == "bar_transpose" and bars_of(obj):
         for b in bars_of(obj):
             b.transpose(3)
@@ -109,6 +119,7 @@ def derive(route, ci, via):
     seq = mk(CONTENTS[ci])
     if route == "seq_copy":
         return seq, seq.copy()
+    short = CONTENTS[ci] and max(m["t"] for m in CONTENTS[ci]) < 96
     if route == "bar_copy":
         first = seq.split([96])[0]
         bar = Bar(first.copy(), 4, 4, Key("D"))
@@ -120,13 +131,14 @@ def derive(route, ci, via):
         comp = Composition.from_sequences([seq, mk(SECOND)])
         return comp, comp.copy()
     if route == "split_first":
-        return seq, seq.split([96])[0]
+        return seq, seq.split([20 if short else 96])[0]
     if route == "split_second":
-        return seq, seq.split([96])[1]
-    if route == "split_bars":
-        return seq, Sequence.sequences_split_bars([seq], 0, quantise_note_lengths=False)[0][ci % 2]
-    if route == "split_bars_requantise":
-        return seq, Sequence.sequences_split_bars([seq], 0, quantise_note_lengths=True)[0][(ci + 1) % 2]
+        return seq, seq.split([20 if short else 96])[1]
+    if route in ("split_bars", "split_bars_requantise"):
+        # the observed track next to a longer one (a track shorter than a bar is then not the last to end)
+        longer = mk(SECOND)
+        bars = Sequence.sequences_split_bars([seq, longer], 0, quantise_note_lengths=(route == "split_bars_requantise"))[0]
+        return seq, bars[(ci + (route == "split_bars_requantise")) % len(bars)]
     raise core.MachineryError(route)
 
 
@@ -167,15 +179,28 @@ def execute(case):
             so, sd = seqs_of(orig), seqs_of(der)
             line["equalsApi"] = len(so) == len(sd) and all(a.equals(b) and b.equals(a) for a, b in zip(so, sd))
             line["attrsEqual"] = attrs(orig) == attrs(der)
-        target = der if side == "derived" else orig
+        target, other = (der, orig) if side == "derived" else (orig, der)
         for op in ops:
-            apply_op(target, op)
+            apply_op(target, op, other)
         line["after"] = {"orig": content(orig), "der": content(der)}
     except core.MachineryError:
         raise
     except Exception as e:
         line["raised"] = f"{type(e).__name__}: {e}"
     return line
+
+
+F_CONCAT = "C16.concatenate-shares-argument-messages"
+
+
+def finding_key(o, v):
+    """Shape: the operated side concatenated the other side to itself and was then modified in place."""
+    ops = o.get("ops", [])
+    if "concatenate_other" in ops and set(v["fails"]) <= {"untouched-side-unchanged", "untouched-side-views-agree"}:
+        later = ops[ops.index("concatenate_other") + 1:]
+        if any(x in IN_PLACE for x in later):
+            return F_CONCAT
+    return None
 
 
 def run(ctx):
@@ -192,6 +217,9 @@ def run(ctx):
         kinds = {"in_place": IN_PLACE, "structural": STRUCTURAL}
         allops = [o for k in g["kinds"] for o in kinds[k]]
         hist = [[o] for o in allops] + [[a, b] for a in allops for b in allops]
+        # the other side as argument, then an in-place or structural operation on the operated side
+        hist += [[w, b] for w in WITH_OTHER for b in IN_PLACE + ["quantise", "cutoff", "normalise"]]
+        hist += [[a, w, b] for a in ("transpose", "set_channel") for w in WITH_OTHER for b in ("quantise", "transpose", "iter_edit_rel", "cutoff")]
         if ctx.thorough:
             hist += [[a, b, c] for a in IN_PLACE for b in allops for c in IN_PLACE]
         cases = []
@@ -214,8 +242,9 @@ def run(ctx):
     samples = [{"route": o["route"], "side": o["side"], "ops": o["ops"], "messages_shared_by_identity": o["shared"]}
                for o in obs[3::max(1, len(obs) // 3)]][:3]
     return ctx.finish(list(zip(obs, ver)),
-                      rule="behaviours of Alias.tla: 8 derivation routes (copy of sequence / bar / track / composition, split first / "
+                      rule="behaviours of Alias.tla (plus merge / concatenate with the other side as argument): 8 derivation routes (copy of sequence / bar / track / composition, split first / "
                            "second piece, bar splitting with either setting) x side operated on x every history of 1-2 operations "
-                           "(thorough 3) over 6 in-place and 12 structural operations, 3 origin contents, both construction routes; "
+                           "(thorough 3) over 6 in-place and 12 structural operations, 4 origin contents (one shorter than a bar), both construction routes; "
                            "non-trivial = distinct (route, side, history, content)",
-                      nontrivial=nontrivial, samples=samples, extra_cov={"cases_sharing_message_objects_by_identity": shared})
+                      nontrivial=nontrivial, samples=samples, finding_key=finding_key,
+                      extra_cov={"cases_sharing_message_objects_by_identity": shared})
